@@ -291,7 +291,8 @@ const TABLES: [&str; 3] = [
 ];
 
 /// (model, invocable, input context template; `$X` is replaced by the input variant of the operation)
-const MODEL_CALLS: [(&str, &str, &str); 28] = [
+const MODEL_CALLS: [(&str, &str, &str); 29] = [
+  ("gen", "rx2", "{x: $X, s: \"ab$X_4\"}"),
   // UNIQUE and ANY tables whose rules overlap for some inputs (null there, a value elsewhere)
   ("gen", "tu2", "{x: $X, s: \"u$X\"}"),
   ("gen", "tany2", "{x: $X, s: \"y$X\"}"),
@@ -625,6 +626,14 @@ impl C13 {
             let before = snapshot(&scopes[s]);
             let day = simrt::clock_days();
             let scope_ref = &scopes[s];
+            // a burst: the same evaluation many times before the one that is looked at (whatever happens
+            // every N-th evaluation happens inside the history)
+            let rep = pu64(op, "rep");
+            if rep > 0 {
+              c.inc("burst.eval");
+              c.add("burst.evaluations", rep);
+              let _ = catch_unwind(AssertUnwindSafe(|| (0..rep).for_each(|_| drop((**ev)(scope_ref)))));
+            }
             let r = on_thread(ho, || catch_unwind(AssertUnwindSafe(|| value_text(&(**ev)(scope_ref)))));
             let text = exprs[e].text.clone();
             match r {
@@ -779,6 +788,12 @@ impl C13 {
           };
           let before = snapshot(&scopes[s]);
           let scope_ref = &scopes[s];
+          let rep = pu64(op, "rep");
+          if rep > 0 {
+            c.inc("burst.table");
+            c.add("burst.evaluations", rep);
+            let _ = catch_unwind(AssertUnwindSafe(|| (0..rep).for_each(|_| drop((**ev)(scope_ref)))));
+          }
           let r = on_thread(ho, || catch_unwind(AssertUnwindSafe(|| value_text(&(**ev)(scope_ref)))));
           match r {
             Ok(v) => {
@@ -826,6 +841,12 @@ impl C13 {
             None => continue,
           };
           let before = (input.to_string(), format!("{:?}", input));
+          let rep = pu64(op, "rep");
+          if rep > 0 {
+            c.inc("burst.model");
+            c.add("burst.evaluations", rep);
+            let _ = catch_unwind(AssertUnwindSafe(|| (0..rep).for_each(|_| drop(me.evaluate_invocable(&inv, &input)))));
+          }
           let r = on_thread(ho, || catch_unwind(AssertUnwindSafe(|| value_text(&me.evaluate_invocable(&inv, &input)))));
           let day = simrt::clock_days();
           match r {
@@ -983,6 +1004,16 @@ impl Sim for C13 {
         json!({"op": "eval", "e": e, "s": rng.index(n_scopes)})
       };
       ops.push(op);
+    }
+    if rng.chance(1, 12) {
+      let candidates: Vec<usize> = ops.iter().enumerate().filter(|(_, o)| matches!(pstr(o, "op"), "eval" | "table" | "model")).map(|(i, _)| i).collect();
+      if !candidates.is_empty() {
+        let i = *rng.pick(&candidates);
+        let threshold = *rng.pick(&[16u64, 32, 64, 100, 128, 256, 500, 512, 1000, 1024]);
+            // a model call may cost a millisecond: fewer repetitions there
+        let rep = if pstr(&ops[i], "op") == "model" { threshold.min(256) } else { threshold };
+        ops[i]["rep"] = json!(rep + rng.below(3));
+      }
     }
     json!({"scopes": scopes, "exprs": exprs, "ctxs": ctxs, "tables": tables, "models": models, "clock0": clock0, "ops": ops})
   }
